@@ -99,6 +99,9 @@ namespace igris
             uint16_t size;
             igris::deserialize(keeper, size);
 
+            // The decoded value replaces whatever the receiver held.
+            vec.clear();
+
             for (int i = 0; i < size; i++)
             {
                 T value;
@@ -126,6 +129,9 @@ namespace igris
         {
             uint16_t size;
             igris::deserialize(keeper, size);
+
+            // The decoded value replaces whatever the receiver held.
+            map.clear();
 
             for (int i = 0; i < size; i++)
             {
